@@ -6,8 +6,8 @@
    C18_base64_nonempty), which gives the hypothesis-free C18_roundtrip_concrete. *)
 From Coq Require Import Permutation.
 From Oras Require Import Base.Prelude Base.FlatFS Generated.GC18
-  Model.Utf8 Model.Base64 Model.CredFile Model.CredSave Model.CredConc
-  Proofs.Base64 Proofs.CredFile Proofs.CredSave Proofs.CredConc.
+  Model.Utf8 Model.Json Model.Base64 Model.CredFile Model.JsonDoc Model.JsonRead Model.CredSave Model.CredConc
+  Proofs.Base64 Proofs.Json Proofs.CredFile Proofs.CredSave Proofs.CredConc Proofs.CredJson Proofs.JsonDoc Proofs.JsonRead.
 
 (* Put then Get -- after any further history that does not Put/Delete the same
    address -- returns exactly the stored credential, whatever order Go's map
@@ -442,6 +442,171 @@ Proof.
            (sim_empty b64_encode bytes None) F).
 Qed.
 Print Assumptions C18_refines_memory_store_fresh.
+
+(* what the model takes from the Go source through the translator (Generated/GC18.v,
+   regenerated on every run): FileStore.Put's guards in their order, and that these
+   guards together mean "no colon in the username; address and tokens valid
+   UTF-8"; ToHostname's TrimPrefix sequence and Cut byte.  An edit of Put,
+   validateCredentialFormat or ToHostname changes the generated tables and breaks
+   these equations (or the translation itself) *)
+Theorem C18_put_guards_from_source :
+  fileStorePut_guards = [b "DisablePut"; b "call:validateCredentialFormat"; b "utf8:serverAddress"] /\
+  forall a c, put_accepts a c =
+              negb (contains colon (c_user c)) && valid_utf8 a && valid_utf8 (c_refresh c) && valid_utf8 (c_access c).
+Proof. exact (conj put_guards_order put_accepts_spec). Qed.
+Print Assumptions C18_put_guards_from_source.
+
+(* the order of effects the save model (Model/CredSave.v) and the lock discipline of
+   the concurrent model (Model/CredConc.v) assume is the order in the source: an
+   extra Unlock/Lock inside PutCredential, a save outside the lock, a write that
+   bypasses Ingest + Rename, a chmod after the copy ... change these lists *)
+Theorem C18_call_order_from_source :
+  calls_saveFile = [b "os.MkdirAll"; b "ioutil.Ingest"; b "os.Remove"; b "os.Rename"] /\
+  calls_Ingest = [b "os.CreateTemp"; b "tempFile.Close"; b "os.Remove"; b "tempFile.Chmod"; b "io.Copy"] /\
+  calls_PutCredential = [b "cfg.rwLock.Lock"; b "cfg.rwLock.Unlock"; b "json.Marshal"; b "cfg.saveFile"] /\
+  calls_DeleteCredential = [b "cfg.rwLock.Lock"; b "cfg.rwLock.Unlock"; b "cfg.saveFile"] /\
+  calls_SetCredentialsStore = [b "cfg.rwLock.Lock"; b "cfg.rwLock.Unlock"; b "cfg.saveFile"] /\
+  calls_GetCredential = [b "cfg.rwLock.RLock"; b "cfg.rwLock.RUnlock"; b "json.Unmarshal"] /\
+  calls_IsAuthConfigured = [b "cfg.rwLock.RLock"; b "cfg.rwLock.RUnlock"] /\
+  calls_getHelperSuffix = [b "ds.config.GetCredentialHelper"; b "ds.config.CredentialsStore"].
+Proof. exact call_orders. Qed.
+Print Assumptions C18_call_order_from_source.
+
+Theorem C18_to_hostname_from_source :
+  forall addr, to_hostname addr = cut_before slash (trim_prefix (b "https://") (trim_prefix (b "http://") addr)).
+Proof. exact to_hostname_spec. Qed.
+Print Assumptions C18_to_hostname_from_source.
+
+(* encoding/json's string codec (Model/Json.v: appendString with HTML escaping,
+   unquote with its lossy repairs) is part of the model: every valid UTF-8
+   string -- control characters, quotes, <>&, U+2028/9, any plane -- written as a
+   JSON string reads back as the same bytes *)
+Theorem C18_json_string_roundtrip :
+  forall s, valid_utf8 s = true -> json_unquote (json_quote s) = Some s.
+Proof. exact json_string_roundtrip. Qed.
+Print Assumptions C18_json_string_roundtrip.
+
+(* hence every string an accepted Put hands to encoding/json -- the address (object
+   key), the auth field (base64 text of ANY user/password bytes), the refresh and
+   the access token -- survives the file; a string that is not valid UTF-8 would
+   not, which is why Put refuses it (before fix d7d4ed9 it was written) *)
+Theorem C18_put_fields_survive_json :
+  forall a c,
+    put_accepts a c = true -> Forall (fun x => x < 256) (c_user c ++ colon :: c_pass c) ->
+    Forall (fun x => json_unquote (json_quote x) = Some x)
+           [a; encode_auth b64_encode (c_user c) (c_pass c); c_refresh c; c_access c].
+Proof. exact put_fields_json_roundtrip. Qed.
+Print Assumptions C18_put_fields_survive_json.
+
+(* Put -> bytes -> Get.  PutCredential keeps json.Marshal(AuthConfig) in the cache
+   and the file holds the same text re-indented; GetCredential (also of a
+   re-opened store) json.Unmarshals it.  [entry_bytes] is that text,
+   [parse_fresh] the reading of its three fields: for every accepted credential
+   the bytes parse back to the entry and decode to the credential *)
+Theorem C18_entry_bytes_roundtrip :
+  forall a c,
+    put_accepts a c = true -> Forall (fun x => x < 256) (c_user c ++ colon :: c_pass c) ->
+    parse_fresh (entry_bytes b64_encode c) =
+      Some (encode_auth b64_encode (c_user c) (c_pass c), c_refresh c, c_access c) /\
+    cred_of_bytes b64_decode (entry_bytes b64_encode c) = RCred c.
+Proof. exact entry_bytes_roundtrip. Qed.
+Print Assumptions C18_entry_bytes_roundtrip.
+
+(* the GENERAL reader of the model (Model/JsonRead.v: the JSON value parser with
+   encoding/json's conventions and the unmarshalling into AuthConfig -- the one
+   that classifies a loaded config file in the HB correspondence cases) reads the
+   text PutCredential produced back to the stored credential *)
+Theorem C18_reader_reads_put_entry :
+  forall a c,
+    put_accepts a c = true -> Forall (fun x => x < 256) (c_user c ++ colon :: c_pass c) ->
+    exists v, parse_whole (entry_bytes b64_encode c) = Some v /\
+              cred_of_entry b64_decode (Old (entry_bytes b64_encode c) (view_of_jval v)) = RCred c.
+Proof. exact reader_reads_put_entry. Qed.
+Print Assumptions C18_reader_reads_put_entry.
+
+(* the BYTES saveFile writes (Model/JsonDoc.v render_file = json.MarshalIndent of the
+   content map, compared byte for byte with the real file on every run) do not
+   depend on Go's map iteration order: any order of the content map and of the
+   auths map gives the same file *)
+Theorem C18_file_bytes_map_order :
+  forall tops ents d d',
+    NoDup (map fst d) -> Permutation d d' -> render_file tops ents d = render_file tops ents d'.
+Proof. exact render_file_order. Qed.
+Print Assumptions C18_file_bytes_map_order.
+
+Theorem C18_auths_bytes_map_order :
+  forall tops ents k l l',
+    NoDup (map fst l) -> Permutation l l' ->
+    render_top tops ents (k, TAuths l) = render_top tops ents (k, TAuths l').
+Proof. exact render_auths_order. Qed.
+Print Assumptions C18_auths_bytes_map_order.
+
+Theorem C18_invalid_utf8_refuted :
+  exists s, valid_utf8 s = false /\ json_unquote (json_quote s) <> Some s.
+Proof. exact invalid_utf8_json_lossy. Qed.
+Print Assumptions C18_invalid_utf8_refuted.
+
+(* I/O errors inside a save (error paths of saveFile and ioutil.Ingest): whichever
+   system call fails -- a mkdir at any level, the temp-file creation, chmod, any
+   write, close or the rename -- after the clean-up the code performs the config
+   path and every other file are untouched and no ingest file stays behind *)
+Theorem C18_failed_save_harmless :
+  forall (chain : list path) (p t : path) (chunks : list str),
+    t <> p -> forall s fp,
+    fget t s = None ->
+    let s' := exec_all s (failed_save_steps chain p t chunks fp) in
+    fget p s' = fget p s /\
+    (forall q, q <> t -> fget q s' = fget q s) /\
+    fget t s' = None.
+Proof. exact failed_save_harmless. Qed.
+Print Assumptions C18_failed_save_harmless.
+
+(* ... and the operation is invisible: it reports the error and the store (memory
+   and file) is exactly as before; operations that do not save cannot fail *)
+Theorem C18_failed_op_invisible :
+  forall (enc : str -> str) (dec : str -> option str) st o,
+    (saves st o = true -> step_io enc dec true st o = (st, RErrIO)) /\
+    (forall io, io = false \/ saves st o = false -> step_io enc dec io st o = step enc dec st o).
+Proof. intros enc dec st o. split; [exact (step_io_failed enc dec st o)|intro io; exact (step_io_unaffected enc dec io st o)]. Qed.
+Print Assumptions C18_failed_op_invisible.
+
+(* the two defects fixed on the repository branch, as witnesses about the pre-fix
+   variants of the model: the ingest file survived a failing chmod / write, and a
+   failed Put stayed visible in memory *)
+Theorem C18_failed_save_leak_refuted :
+  forall (chain : list path) (p t : path) (chunks : list str) s,
+    fget t s = None ->
+    fget t (exec_all s (failed_save_steps_prefix chain p t chunks FChmod)) <> None /\
+    forall j, fget t (exec_all s (failed_save_steps_prefix chain p t chunks (FWrite j))) <> None.
+Proof. exact failed_save_prefix_leaks. Qed.
+Print Assumptions C18_failed_save_leak_refuted.
+
+Theorem C18_failed_op_visible_refuted :
+  forall (enc : str -> str) (dec : str -> option str),
+    exists st o a,
+      snd (step_io_prefix enc dec true st o) = RErrIO /\
+      get_candidates dec (cache_of (fst (step_io_prefix enc dec true st o))) a <>
+      get_candidates dec (cache_of st) a.
+Proof. exact step_io_prefix_visible. Qed.
+Print Assumptions C18_failed_op_visible_refuted.
+
+(* DynamicStore (store.go; DetectDefaultNativeStore off): an address routed to a
+   credential helper or to the configured credsStore never touches the store or
+   the config file; with no helper for any address and no credsStore, the
+   DynamicStore IS the file store with DisablePut = not AllowPlaintextPut, over
+   every history of Get/Put/Delete -- so all theorems above apply to it *)
+Theorem C18_dynamic_store :
+  forall (enc : str -> str) (dec : str -> option str) allow helpers,
+    (forall st o h, ds_route helpers st (op_addr o) = Some h -> (forall s, o <> SetCs s) ->
+                    ds_step enc dec allow helpers st o = (st, RNative)) /\
+    (forall st h, (forall a, helper_of helpers a = []) -> m_cs (st_mem st) = [] -> Forall dyn_op h ->
+                  ds_run enc dec allow helpers st h = fs_run enc dec (negb allow) st h).
+Proof.
+  intros enc dec allow helpers. split.
+  - intros st o h. exact (ds_native_untouched enc dec allow helpers st o h).
+  - intros st h. exact (ds_run_file enc dec allow helpers h st).
+Qed.
+Print Assumptions C18_dynamic_store.
 
 (* the defect this check found (fixed on the repository branch): before the fix
    a config file holding the JSON value null made the first save panic *)
